@@ -654,11 +654,7 @@ func (sc *pubScn) pubMutate() {
 	name := sc.nameFor(a)
 	switch rng.Intn(5) {
 	case 0:
-		if !c.attachState()[name] {
-			// {set} from a session which is not attached takes the "offline" path (hub.replyOfflineTopicSetSub);
-			// that path is exercised and judged by C08, not here.
-			return
-		}
+		// NB: the session may be detached: then the request reaches the topic through the hub.
 		m := pubWantModes[rng.Intn(len(pubWantModes))]
 		if sc.kind == "p2p" {
 			m = strings.NewReplacer("S", "A").Replace(m)
